@@ -27,504 +27,6 @@ def typenum(s):
     return v
 
 
-def absorb_chain(t):
-    """For the origin term of a finished hasher: list of absorbed argument terms
-    (innermost first) and the constructor term."""
-    items = []
-    while t[0] == 'call' and t[1] is not None and t[1].get('name') in ('chain',) and len(t[2]) == 2:
-        items.append(t[2][1])
-        t = t[2][0]
-    items.reverse()
-    return t, items
-
-
-def is_param(t, i):
-    return strip(t) == ('param', i)
-
-
-def const_int_term(t):
-    t = strip(t)
-    if t[0] == 'const' and isinstance(t[1].get('v'), int) and not isinstance(t[1].get('v'), bool):
-        return t[1]['v']
-    return None
-
-
-def cast_of(t):
-    """Strip an integer cast."""
-    if t[0] == 'cast':
-        return t[1]
-    return t
-
-
-def unwrap_overflow(t):
-    """(AddWithOverflow(a,b)).0 -> ('binop','Add',a,b)"""
-    if t[0] == 'proj' and t[1][0] == 'binop' and t[1][1].endswith('WithOverflow') and t[2] == (('f', 0, t[2][0][2]),):
-        return ('binop', t[1][1].replace('WithOverflow', ''), t[1][2], t[1][3])
-    if t[0] == 'proj' and t[1][0] == 'binop' and t[1][1].endswith('WithOverflow'):
-        return ('binop', t[1][1].replace('WithOverflow', ''), t[1][2], t[1][3])
-    return t
-
-
-def norm(t):
-    """Normalise arithmetic terms: drop overflow tuples and copies."""
-    t = unwrap_overflow(t)
-    if t[0] == 'binop':
-        return ('binop', t[1].replace('Unchecked', ''), norm(t[2]), norm(t[3]))
-    if t[0] == 'cast':
-        return ('cast', norm(t[1]), t[2])
-    return t
-
-
-def dst_prime_tail(items):
-    """The last two absorbed items must be dst (param 2) and [len(dst) as u8]."""
-    if len(items) < 2:
-        return False
-    a, b = items[-2], items[-1]
-    if not is_param(a, 2):
-        return False
-    b = strip(b)
-    if not (b[0] == 'agg' and 'array' in b[1] and len(b[2]) == 1):
-        return False
-    x = cast_of(b[2][0])
-    return x[0] == 'call' and x[1] and x[1].get('def', '').endswith('::len') and is_param(x[2][0], 2)
-
-
-def rule_xmd(fx, rep):
-    import inline as INL
-    b = INL.inlined(fx, XMD, lambda q: INL.is_private_helper(fx, q))
-    if b is None:
-        rep.fail('GUARD', 'xmd:anchor', 'ExpandMsgXmd::expand_message not found')
-        return
-    rep.fn(XMD)
-    o = Origin(b)
-    where = fx.fn(XMD)['span']
-    # ---- ell and the abort guard
-    guards = []
-    for bi, blk in enumerate(b.blocks):
-        t = blk['term']
-        if t['k'] != 'switch' or bi not in b.reachable():
-            continue
-        d = norm(o.operand(t['discr']))
-        if d[0] == 'binop' and d[1] in ('Gt', 'Ge', 'Lt', 'Le'):
-            guards.append((bi, t, d))
-    ell_guard = None
-    for bi, t, d in guards:
-        for side, other in ((2, 3), (3, 2)):
-            k = const_int_term(d[other])
-            e = norm(strip(d[side]))
-            if k is None:
-                continue
-            # e must be ceil(len / b): Div(Sub(Add(len, b), 1), b)
-            if (e[0] == 'binop' and e[1] == 'Div' and e[2][0] == 'binop' and e[2][1] == 'Sub' and const_int_term(e[2][3]) == 1
-                    and e[2][2][0] == 'binop' and e[2][2][1] == 'Add'):
-                add = e[2][2]
-                ops = [strip(add[2]), strip(add[3])]
-                bsz = [x for x in ops if x[0] == 'call' and x[1] and x[1].get('name') == 'to_usize']
-                ln = [x for x in ops if x == ('param', 3)]
-                div = strip(e[3])
-                if len(bsz) == 1 and len(ln) == 1 and div == bsz[0] and 'OutputSize' in ' '.join(bsz[0][1]['targs']):
-                    ell_guard = (bi, t, d[1], side == 2, k)
-    if ell_guard is None:
-        rep.fail('GUARD', 'xmd:ell-guard', 'no comparison of ell = ceil(len_in_bytes / OutputSize) with a constant found before hashing', where, construct=XMD)
-        return
-    bi, t, op, ell_left, k = ell_guard
-    # edges: value 0 = false edge
-    false_bb = [bb for v, bb in t['targets'] if v == 0]
-    true_bb = t['otherwise'] if false_bb else None
-    if not ell_left:
-        op = {'Gt': 'Lt', 'Lt': 'Gt', 'Ge': 'Le', 'Le': 'Ge'}[op]
-    # when does the TRUE edge fire (in terms of ell)?   Gt k: ell>=k+1 ; Ge k: ell>=k ; Lt k: ell<=k-1 ; Le k: ell<=k
-    if op in ('Gt', 'Ge'):
-        abort_bb, cont_bb = true_bb, false_bb[0]
-        max_ok = k if op == 'Gt' else k - 1
-    else:
-        abort_bb, cont_bb = false_bb[0], true_bb
-        max_ok = k - 1 if op == 'Lt' else k
-    rep.check(max_ok == 255, 'GUARD', 'xmd:ell-guard', 'expansion continues iff ell <= 255',
-              'expansion continues for ell <= %d; RFC 9380 requires abort for ell > 255 (the block counter is one byte)' % max_ok, t['span'], construct=XMD)
-    # abort edge diverges
-    ab = b.blocks[abort_bb]['term']
-    rep.check(ab['k'] == 'call' and ab['target'] is None, 'GUARD', 'xmd:abort-diverges', 'the abort edge panics', 'the abort edge does not diverge', t['span'])
-    # the continue edge dominates every Digest call and every return
-    hashing = [i for i, tt in b.calls() if (callee(tt) or {}).get('trait', '') in ('digest::Digest', 'digest::Input', 'digest::FixedOutput', 'digest::ExtendableOutput', 'digest::BlockInput', 'digest::XofReader', 'digest::Reset')]
-    rep.sites(len(hashing))
-    dom_ok = all(b.dominates(cont_bb, i) for i in hashing) and all(b.dominates(cont_bb, r) for r in b.return_blocks())
-    rep.check(dom_ok and hashing, 'GUARD', 'xmd:guard-dominates', 'the guard dominates all %d digest calls and the return' % len(hashing),
-              'hashing or a return is reachable without passing the ell guard', t['span'], construct=XMD)
-    # ---- absorbed sequences
-    invs = []
-    for i, tt in b.calls():
-        c = callee(tt)
-        if c and c.get('trait') == 'digest::Digest' and c.get('name') == 'result':
-            ctor, items = absorb_chain(o.operand(tt['args'][0]))
-            invs.append((i, tt, ctor, items))
-    rep.check(len(invs) == 3, 'WIRE', 'xmd:hash-invocations', 'three hash invocations: b_0, b_1, b_i (loop)', '%d hash invocations found' % len(invs), where)
-    if len(invs) != 3:
-        return
-    invs.sort(key=lambda x: x[0])
-    for nm, inv in zip(('b_0', 'b_1', 'b_i'), invs):
-        rep.check(dst_prime_tail(inv[3]), 'WIRE', 'xmd:%s:DST_prime' % nm, 'ends with DST || I2OSP(len(DST), 1)',
-                  'absorbed sequence %s does not end with dst, [dst.len() as u8]' % [term_str(x) for x in inv[3]], inv[1]['span'], construct=XMD)
-        rep.check(is_call_to(inv[2], name='new') and inv[2][1].get('trait') == 'digest::Digest', 'WIRE', 'xmd:%s:fresh-hasher' % nm, 'starts from a fresh hasher', 'hasher is not fresh: %s' % term_str(inv[2]))
-    b0 = invs[0][3]
-    good = len(b0) == 5
-    why = 'b_0 absorbs %d items' % len(b0)
-    if good:
-        z = strip(b0[0])
-        zt = ' '.join(z[1]['targs']) if z[0] == 'call' and z[1] else ''
-        zok = z[0] == 'call' and z[1].get('name') == 'default' and 'GenericArray<u8, <HashT as digest::BlockInput>::BlockSize>' in zt
-        rep.check(zok, 'WIRE', 'xmd:b_0:Z_pad', 'Z_pad is a zeroed array whose length is the hash\'s input block size (type-level)',
-                  'the first absorbed item is %s: its length does not follow the hash\'s block size (RFC: Z_pad = I2OSP(0, s_in_bytes))' % term_str(z), invs[0][1]['span'], construct=XMD)
-        mok = is_param(b0[1], 1)
-        l = strip(b0[2])
-        lok = l[0] == 'agg' and 'array' in l[1] and len(l[2]) == 3
-        if lok:
-            hi, lo, zero = [norm(x) for x in l[2]]
-            hi_ = cast_of(hi)
-            lok = (hi_[0] == 'binop' and hi_[1] == 'Shr' and strip(hi_[2]) == ('param', 3) and const_int_term(hi_[3]) == 8
-                   and strip(cast_of(lo)) == ('param', 3) and const_int_term(zero) == 0
-                   and hi[0] == 'cast' and lo[0] == 'cast')
-        rep.check(mok and lok, 'WIRE', 'xmd:b_0:msg-and-length', 'msg then I2OSP(len_in_bytes, 2) || I2OSP(0, 1)',
-                  'b_0 absorbs %s after Z_pad' % [term_str(x) for x in b0[1:3]], invs[0][1]['span'], construct=XMD)
-    else:
-        rep.fail('WIRE', 'xmd:b_0:shape', why, invs[0][1]['span'], construct=XMD)
-    # b_1: b_0 then 1
-    b1 = invs[1][3]
-    ok = len(b1) == 4
-    if ok:
-        first = b1[0]
-        # peel index(RangeFull)/deref/as_ref of the b_0 result
-        for _ in range(8):
-            first = strip(first)
-            if first[0] == 'call' and first[1] and first[1].get('name') in ('index', 'deref', 'as_ref', 'as_slice'):
-                first = first[2][0]
-            else:
-                break
-        first = strip(first)
-        ok = first[0] == 'call' and first[1].get('name') == 'result' and first[4] == invs[0][0]
-        one = strip(b1[1])
-        ok = ok and one[0] == 'agg' and len(one[2]) == 1 and const_int_term(one[2][0]) == 1
-    rep.check(ok, 'WIRE', 'xmd:b_1', 'b_1 = H(b_0 || I2OSP(1,1) || DST_prime)', 'b_1 absorbs %s' % [term_str(x) for x in b1], invs[1][1]['span'], construct=XMD)
-    # b_i: xor block then (idx+1)
-    bi_ = invs[2][3]
-    ok = len(bi_) == 4
-    why = ''
-    if ok:
-        ctr = strip(bi_[1])
-        ok = ctr[0] == 'agg' and len(ctr[2]) == 1
-        if ok:
-            e = norm(cast_of(norm(ctr[2][0])))
-            # (idx + 1) with idx the loop variable of 1..ell
-            ok = e[0] == 'binop' and e[1] == 'Add' and const_int_term(e[3]) == 1
-            why = 'block counter is %s' % term_str(e)
-            if ok:
-                idx = strip(e[2])
-                # loop variable: payload of Range::next
-                ok = idx[0] == 'proj' and idx[1][0] == 'call' and idx[1][1].get('name') == 'next'
-        x = strip(bi_[0])
-        xt = ' '.join(x[1]['targs']) if x[0] == 'call' and x[1] else ''
-        ok = ok and x[0] == 'call' and x[1].get('name') == 'default' and 'OutputSize' in xt
-    rep.check(ok, 'WIRE', 'xmd:b_i', 'b_i = H(strxor-buffer(OutputSize) || I2OSP(idx+1, 1) || DST_prime)', 'b_i absorbs %s (%s)' % ([term_str(x) for x in bi_], why), invs[2][1]['span'], construct=XMD)
-    # the loop range is 1..ell
-    rng = None
-    ok = False
-    for blk in b.blocks:
-        for s in blk['stmts']:
-            if s['k'] == 'assign' and s['rv']['k'] == 'agg' and s['rv']['kind'].get('adt', '').endswith('ops::Range') and len(s['rv']['ops']) == 2:
-                lo = const_int_term(o.operand(s['rv']['ops'][0]))
-                hi = norm(strip(o.operand(s['rv']['ops'][1])))
-                if lo == 1 and hi[0] == 'binop' and hi[1] == 'Div':
-                    ok = True
-                    rng = s
-    rep.check(ok, 'WIRE', 'xmd:loop-range', 'blocks 2..=ell are produced by a loop over 1..ell', 'loop range is not 1..ell', rng['span'] if rng else where, construct=XMD)
-    # xor closure: tmp[j] = b0[j] ^ prev[j]
-    clos = [p for p in fx.fns if p.startswith(XMD + '::{closure')]
-    okx = False
-    for cp in clos:
-        cb = fx.body(cp)
-        if cb is None:
-            continue
-        rep.fn(cp)
-        for blk in cb.blocks:
-            for s in blk['stmts']:
-                if s['k'] == 'assign' and s['rv']['k'] == 'binop' and s['rv']['op'] == 'BitXor':
-                    okx = True
-        for _, tt in cb.calls():
-            cc = callee(tt)
-            if cc and cc.get('trait') == 'std::ops::BitXor':
-                okx = True
-    rep.check(okx, 'WIRE', 'xmd:strxor', 'the buffer is filled with a byte-wise XOR', 'no XOR found in the strxor closure', where)
-    # final truncate to len_in_bytes
-    tr = [tt for i, tt in b.calls() if (callee(tt) or {}).get('def', '').endswith('::truncate')]
-    ok = len(tr) == 1 and strip(o.operand(tr[0]['args'][1])) == ('param', 3)
-    rep.check(ok, 'WIRE', 'xmd:truncate', 'output truncated to len_in_bytes', 'output is not truncated to len_in_bytes', where, construct=XMD)
-
-
-def rule_xof(fx, rep):
-    b = fx.body(XOF)
-    if b is None:
-        rep.fail('WIRE', 'xof:anchor', 'ExpandMsgXof::expand_message not found')
-        return
-    rep.fn(XOF)
-    o = Origin(b)
-    fin = [(i, tt) for i, tt in b.calls() if (callee(tt) or {}).get('name') == 'vec_result']
-    if len(fin) != 1:
-        rep.fail('WIRE', 'xof:one-invocation', '%d XOF finalisations' % len(fin), fx.fn(XOF)['span'])
-        return
-    i, tt = fin[0]
-    rep.sites()
-    ctor, items = absorb_chain(o.operand(tt['args'][0]))
-    ok = len(items) == 4 and dst_prime_tail(items) and is_param(items[0], 1)
-    if ok:
-        l = strip(items[1])
-        ok = l[0] == 'agg' and len(l[2]) == 2
-        if ok:
-            hi, lo = [norm(x) for x in l[2]]
-            hi_ = cast_of(hi)
-            ok = (hi_[0] == 'binop' and hi_[1] == 'Shr' and strip(hi_[2]) == ('param', 3) and const_int_term(hi_[3]) == 8
-                  and strip(cast_of(lo)) == ('param', 3))
-    rep.check(ok, 'WIRE', 'xof:absorbed-sequence', 'H(msg || I2OSP(len, 2) || DST || I2OSP(len(DST), 1))',
-              'XOF absorbs %s' % [term_str(x) for x in items], tt['span'], construct=XOF)
-    rep.check(strip(o.operand(tt['args'][1])) == ('param', 3), 'WIRE', 'xof:output-length', 'squeezes len_in_bytes bytes', 'output length is %s' % term_str(o.operand(tt['args'][1])), tt['span'], construct=XOF)
-    rep.check(is_call_to(ctor, name='default'), 'WIRE', 'xof:fresh-hasher', 'fresh hasher', 'hasher: %s' % term_str(ctor))
-
-
-def rule_h2f(fx, rep):
-    b = fx.body(H2F)
-    if b is None:
-        rep.fail('WIRE', 'hash_to_field:anchor', 'hash_to_field not found')
-        return
-    rep.fn(H2F)
-    o = Origin(b)
-    where = fx.fn(H2F)['span']
-    calls = {}
-    for i, tt in b.calls():
-        c = callee(tt)
-        calls.setdefault(c.get('name') if c else None, []).append((i, tt, c))
-    # expand_message(msg, dst, count * L)
-    em = calls.get('expand_message', [])
-    ok = len(em) == 1
-    if ok:
-        tt = em[0][1]
-        ln = norm(strip(o.operand(tt['args'][2])))
-        L = None
-        ok = is_param(o.operand(tt['args'][0]), 1) and is_param(o.operand(tt['args'][1]), 2) and ln[0] == 'binop' and ln[1] == 'Mul'
-        if ok:
-            ops = [strip(ln[2]), strip(ln[3])]
-            Ls = [x for x in ops if x[0] == 'call' and x[1].get('name') == 'to_usize' and 'FromRO>::Length' in ' '.join(x[1]['targs'])]
-            ok = len(Ls) == 1 and ('param', 3) in ops
-            L = Ls[0] if Ls else None
-    rep.check(ok, 'WIRE', 'hash_to_field:expand-call', 'expand_message(msg, dst, count * Length)', 'expand_message is not called with (msg, dst, count * <T as FromRO>::Length)', where, construct=H2F)
-    # slicing idx*L .. (idx+1)*L
-    ix = [x for x in calls.get('index', [])]
-    ok2 = len(ix) == 1
-    if ok2:
-        tt = ix[0][1]
-        rg = strip(o.operand(tt['args'][1]))
-        ok2 = rg[0] == 'agg' and rg[1].get('adt', '').endswith('ops::Range') and len(rg[2]) == 2
-        if ok2:
-            lo, hi = norm(strip(rg[2][0])), norm(strip(rg[2][1]))
-
-            def is_L(x):
-                x = strip(x)
-                return x[0] == 'call' and x[1].get('name') == 'to_usize'
-
-            def is_idx(x):
-                x = strip(x)
-                return x[0] == 'proj' and x[1][0] == 'call' and x[1][1].get('name') == 'next'
-            ok_lo = lo[0] == 'binop' and lo[1] == 'Mul' and ((is_idx(lo[2]) and is_L(lo[3])) or (is_idx(lo[3]) and is_L(lo[2])))
-            ok_hi = (hi[0] == 'binop' and hi[1] == 'Mul' and any(is_L(x) for x in (hi[2], hi[3]))
-                     and any((norm(strip(x))[0] == 'binop' and norm(strip(x))[1] == 'Add' and is_idx(norm(strip(x))[2]) and const_int_term(norm(strip(x))[3]) == 1) for x in (hi[2], hi[3])))
-            ok2 = ok_lo and ok_hi
-            src = strip(o.operand(tt['args'][0]))
-            ok2 = ok2 and src[0] == 'call' and src[1].get('name') == 'expand_message'
-    rep.check(ok2, 'WIRE', 'hash_to_field:block-slicing', 'element idx is built from bytes [idx*L, (idx+1)*L) of the expansion',
-              'blocks are not consecutive Length-byte slices of the expand_message output', where, construct=H2F)
-    # loop 0..count, from_ro on each, pushed in order
-    rng = None
-    for blk in b.blocks:
-        for s in blk['stmts']:
-            if s['k'] == 'assign' and s['rv']['k'] == 'agg' and s['rv']['kind'].get('adt', '').endswith('ops::Range') and s['rv']['kind'].get('variant_name') == 'Range':
-                if strip(o.operand(s['rv']['ops'][1])) == ('param', 3):
-                    rng = s
-    ok3 = rng is not None and const_int_term(o.operand(rng['rv']['ops'][0])) == 0
-    fr = calls.get('from_ro', [])
-    pu = calls.get('push', [])
-    ok3 = ok3 and len(fr) == 1 and len(pu) == 1
-    if ok3:
-        pushed = strip(o.operand(pu[0][1]['args'][1]))
-        ok3 = pushed[0] == 'call' and pushed[1].get('name') == 'from_ro'
-        arg = strip(fr[0][1]['args'][0] and o.operand(fr[0][1]['args'][0]))
-        ok3 = ok3 and arg[0] == 'call' and arg[1].get('name') == 'from_slice'
-    rep.check(ok3, 'WIRE', 'hash_to_field:loop', 'for idx in 0..count: push(from_ro(block idx))', 'element loop is not 0..count with one from_ro per block', where, construct=H2F)
-    rep.sites(len(list(b.calls())))
-
-
-def straight_line_calls(b):
-    """Calls of a straight-line body in execution order (None if the body branches)."""
-    out = []
-    bb = 0
-    seen = set()
-    while True:
-        if bb in seen:
-            return None
-        seen.add(bb)
-        t = b.blocks[bb]['term']
-        if t['k'] == 'call':
-            out.append(t)
-            if t['target'] is None:
-                return out
-            bb = t['target']
-        elif t['k'] in ('goto', 'assert', 'drop'):
-            bb = t['target']
-        elif t['k'] == 'return':
-            return out
-        else:
-            return None
-
-
-def rule_from_okm(fx, rep):
-    C.check_okm_consts(fx, rep)
-    shapes = {}
-    for ty, rbytes, L in ((C.FQ, 48, 64), (C.FR, 32, 48)):
-        short = ty.rsplit('::', 1)[1]
-        path = fx.impl_method('hash_to_field::BaseFromRO', ty, 'from_okm')
-        b = fx.body(path) if path else None
-        if b is None:
-            continue
-        o = Origin(b)
-        r = Resolver(b)
-        where = fx.fn(path)['span']
-        seq = straight_line_calls(b)
-        if seq is None:
-            rep.fail('SHAPE', '%s:from_okm:straight-line' % short, 'from_okm has data-dependent control flow', where, construct=path)
-            continue
-        # parameter type length
-        Lty = typenum(b.local_ty(1))
-        rep.check(Lty == L, 'BYTES', '%s:from_okm:input-length' % short, 'takes %d bytes' % L, 'input length is %s, expected %d' % (Lty, L), where)
-        reads = []        # (pad, kind, bound)
-        cur_read = None
-        vals = {}         # local of unwrap(from_repr) result -> read index
-        mul_target = None
-        add = None
-        for t in seq:
-            c = callee(t)
-            nm = c.get('name') if c else None
-            if nm == 'read_be':
-                src = strip(o.operand(t['args'][1]))
-                desc = None
-                if src[0] == 'call' and src[1].get('name') == 'chain' and len(src[2]) == 2:
-                    padt = strip(src[2][0])
-                    datt = strip(src[2][1])
-                    pad = None
-                    if padt[0] == 'call' and padt[1].get('name') == 'new' and padt[2]:
-                        z = strip(padt[2][0])
-                        if z[0] == 'repeat' and const_int_term(z[1]) == 0:
-                            pad = z[2]
-                    sl = None
-                    if datt[0] == 'call' and datt[1].get('name') == 'new' and datt[2]:
-                        d = strip(datt[2][0])
-                        if d[0] == 'call' and d[1].get('name') == 'index' and len(d[2]) == 2:
-                            base = d[2][0]
-                            for _ in range(6):
-                                base = strip(base)
-                                if base[0] == 'call' and base[1].get('name') in ('deref', 'as_ref', 'as_slice'):
-                                    base = base[2][0]
-                                else:
-                                    break
-                            rg = strip(d[2][1])
-                            if strip(base) == ('param', 1) and rg[0] == 'agg' and len(rg[2]) == 1:
-                                kind = rg[1].get('adt', '').rsplit('::', 1)[-1]
-                                sl = (kind, const_int_term(rg[2][0]))
-                    if pad is not None and sl is not None:
-                        desc = (pad, sl[0], sl[1])
-                reads.append(desc)
-                cur_read = len(reads) - 1
-            elif nm == 'from_repr':
-                pass
-            elif nm == 'unwrap' and t['args']:
-                src = strip(o.operand(t['args'][0]))
-                if src[0] == 'call' and src[1].get('name') == 'from_repr' and not t['dest']['p']:
-                    vals[t['dest']['l']] = cur_read
-            elif nm == 'mul_assign':
-                ref = r.operand_referent(t['args'][0])
-                if ref and ref[0] == 'place' and not ref[1]['p']:
-                    mul_target = ref[1]['l']
-            elif nm == 'add_assign':
-                a = r.operand_referent(t['args'][0])
-                bb_ = r.operand_referent(t['args'][1])
-                add = (a[1]['l'] if a and a[0] == 'place' and not a[1]['p'] else None,
-                       bb_[1]['l'] if bb_ and bb_[0] == 'place' and not bb_[1]['p'] else None)
-        rep.sites(len(seq))
-        half = L // 2
-        ok = (len(reads) == 2 and reads[0] is not None and reads[1] is not None
-              and reads[0] == (rbytes - half, 'RangeTo', half) and reads[1] == (rbytes - half, 'RangeFrom', half))
-        rep.check(ok, 'BYTES', '%s:from_okm:halves' % short,
-                  'first read = %d zero bytes + okm[..%d], second = %d zero bytes + okm[%d..]: two big-endian halves padded to the %d-byte repr' % (rbytes - half, half, rbytes - half, half, rbytes),
-                  'reads are %r; expected (%d zero bytes, okm[..%d]) then (%d zero bytes, okm[%d..])' % (reads, rbytes - half, half, rbytes - half, half), where, construct=path)
-        ret = strip(o.local(0))
-        okm = mul_target is not None and vals.get(mul_target) == 0
-        rep.check(okm, 'SHAPE', '%s:from_okm:high-half-scaled' % short, 'the element read from the FIRST half is the one multiplied by 2^%d' % (8 * half),
-                  'the multiplication by 2^%d is applied to the element from read #%s (must be the first, most significant, half)' % (8 * half, vals.get(mul_target)), where, construct=path)
-        oka = add is not None and add[0] == mul_target and vals.get(add[1]) == 1
-        rep.check(oka, 'SHAPE', '%s:from_okm:add-low-half' % short, 'then the element from the second half is added', 'the sum does not add the second half to the scaled first half (%r)' % (add,), where, construct=path)
-        # returned value is the accumulated element
-        r0 = [s for blk in b.blocks for s in blk['stmts'] if s['k'] == 'assign' and s['place'] == {'l': 0, 'p': []}]
-        okr = len(r0) == 1 and op_place(r0[0]['rv'].get('op', ['x'])) == {'l': mul_target, 'p': []}
-        rep.check(okr, 'SHAPE', '%s:from_okm:returns-sum' % short, 'returns hi * 2^k + lo', 'does not return the accumulated element', where, construct=path)
-        shapes[short] = (len(seq), [c_.get('name') if c_ else None for c_ in [callee(t) for t in seq]])
-    rep.floor('SHAPE', 'from_okm-impls', len(shapes), 2)
-
-
-def rule_fq2(fx, rep):
-    path = fx.impl_method('hash_to_field::FromRO', 'bls12_381::fq2::Fq2', 'from_ro')
-    b = fx.body(path) if path else None
-    if b is None:
-        rep.fail('WIRE', 'Fq2:from_ro:anchor', 'FromRO for Fq2 not found')
-        return
-    rep.fn(path)
-    o = Origin(b)
-    where = fx.fn(path)['span']
-    rep.check(typenum(b.local_ty(1)) == 128, 'BYTES', 'Fq2:from_ro:input-length', '128 bytes', 'input length is %s' % typenum(b.local_ty(1)), where)
-    t = strip(o.local(0))
-    ok = t[0] == 'agg' and t[1].get('adt', '').endswith('fq2::Fq2') and len(t[2]) == 2
-    parts = []
-    if ok:
-        for comp in t[2]:
-            c = strip(comp)
-            good = c[0] == 'call' and c[1].get('name') == 'from_okm' and 'fq::Fq' in (c[1].get('res') or c[1].get('self_ty') or '')
-            sl = None
-            if good:
-                a = strip(c[2][0])
-                if a[0] == 'call' and a[1].get('name') == 'from_slice':
-                    d = strip(a[2][0])
-                    if d[0] == 'call' and d[1].get('name') == 'index':
-                        base = d[2][0]
-                        for _ in range(6):
-                            base = strip(base)
-                            if base[0] == 'call' and base[1].get('name') in ('deref', 'as_ref', 'as_slice'):
-                                base = base[2][0]
-                            else:
-                                break
-                        rg = strip(d[2][1])
-                        if strip(base) == ('param', 1) and rg[0] == 'agg' and len(rg[2]) == 1:
-                            sl = (rg[1].get('adt', '').rsplit('::', 1)[-1], const_int_term(rg[2][0]))
-            parts.append(sl)
-    rep.check(ok and parts == [('RangeTo', 64), ('RangeFrom', 64)], 'WIRE', 'Fq2:from_ro:real-part-first',
-              'c0 = from_okm(okm[..64]), c1 = from_okm(okm[64..])', 'components are built from %r' % (parts,), where, construct=path)
-    # blanket FromRO for BaseFromRO forwards to from_okm
-    bl = [i for i in fx.impls_of('hash_to_field::FromRO') if i['generics'] > 0]
-    ok = False
-    if len(bl) == 1:
-        p = [it['def'] for it in bl[0]['items'] if it['name'] == 'from_ro']
-        bb = fx.body(p[0]) if p else None
-        if bb is not None:
-            rep.fn(p[0])
-            cs = [callee(tt) for _, tt in bb.calls()]
-            ok = len(cs) == 1 and cs[0].get('trait') == 'hash_to_field::BaseFromRO' and cs[0].get('name') == 'from_okm'
-    rep.check(ok, 'WIRE', 'FromRO:blanket-forwards', 'FromRO for base fields is from_okm on the same bytes', 'the blanket FromRO impl does not simply forward to BaseFromRO::from_okm')
-
-
 XMD_SCENARIOS = [
     # (OutputSize, BlockSize, len_in_bytes): SHA-256-like, SHA-512-like, SHA-384-like, SHA3-256-like sizes, and a
     # 1-/2-byte-output abstract hash so that the 255-block boundary is reached with few steps
